@@ -201,6 +201,8 @@ class Bounds:
     sites = self.call_sites().get(f.qualname, [])
     if not sites or depth <= 0:
       return None
+    if name not in f.params:
+      return None           # *args / **kwargs: no single argument position
     idx = f.params.index(name)
     off = 1 if f.kind in ('method', 'getter', 'setter') else 0
     bs = []
@@ -445,6 +447,11 @@ def r1_raises(rep, closure):
       if isinstance(s, ast.Raise):
         n += 1
         exn = au.raised_class(R1_REPO[0], f, s)
+        if exn == 'AssertionError':
+          # `raise AssertionError(..)` states that the place cannot be reached (the default arm of a dispatch over an
+          # enumeration, an `else` after exhaustive cases): whether it can is a fact about values, not decided here
+          rep.undecided('R1a/raise-sites', '%s raises ValueError' % f.name, '`%s` states that this point is never reached; whether that holds is not decided' % norm(s)[:60], f.loc(s))
+          continue
         if exn is None:
           rep.check3(None, 'R1a/raise-sites', '%s raises ValueError' % f.name, f.qualname, norm(s)[:100], '', f.loc(s),
                      why_open='the raised object `%s` is not followed to the construction of an exception' % norm(s.exc)[:60])
